@@ -33,14 +33,20 @@ type Case struct {
 	Resp        Ref      `json:"resp"`
 	Confs       []Ref    `json:"confs"`
 	AllowIDP    bool     `json:"allow_idp_initiated,omitempty"`
-	Validator   string   `json:"validator,omitempty"` // "" | accept | reject
-	Entry       string   `json:"entry"`               // xml | post | artifact-xml | artifact-http
-	Artifact    Ref      `json:"artifact"`            // InResponseTo of the ArtifactResponse vs. the issued ArtifactResolve ID
-	RespSigned  bool     `json:"resp_signed,omitempty"`
-	ArtSigned   bool     `json:"artifact_signed,omitempty"`
-	Encrypted   bool     `json:"encrypted,omitempty"`
-	NoDest      bool     `json:"no_dest,omitempty"` // unsigned Response without Destination (legitimate: Destination is optional then)
-	Methods     []string `json:"methods,omitempty"` // per confirmation: "" = bearer | hok | sv (every confirmation counts, whatever its method)
+	// Trust: the SP's trust configuration ("" = meta1; every configuration trusts the signing key used here).
+	// Warm: the same ServiceProvider value has processed an ordinary valid login before this message.
+	Trust string `json:"trust,omitempty"`
+	Warm  bool   `json:"warm,omitempty"`
+	// Noise: options of the SP that concern only what it sends (see spkit.Noise); the verdict must not depend on them
+	Noise      uint64   `json:"noise,omitempty"`
+	Validator  string   `json:"validator,omitempty"` // "" | accept | reject
+	Entry      string   `json:"entry"`               // xml | post | artifact-xml | artifact-http
+	Artifact   Ref      `json:"artifact"`            // InResponseTo of the ArtifactResponse vs. the issued ArtifactResolve ID
+	RespSigned bool     `json:"resp_signed,omitempty"`
+	ArtSigned  bool     `json:"artifact_signed,omitempty"`
+	Encrypted  bool     `json:"encrypted,omitempty"`
+	NoDest     bool     `json:"no_dest,omitempty"` // unsigned Response without Destination (legitimate: Destination is optional then)
+	Methods    []string `json:"methods,omitempty"` // per confirmation: "" = bearer | hok | sv (every confirmation counts, whatever its method)
 }
 
 func methodURI(m string) string {
@@ -147,7 +153,11 @@ func check(c Case) pbt.Result {
 	if err != nil {
 		return pbt.Result{Err: "harness: " + err.Error()}
 	}
-	sp := spkit.NewSP(spkit.Config{Trust: "meta1", AllowIDPInit: c.AllowIDP})
+	sp := spkit.NewSP(spkit.Config{Trust: c.Trust, AllowIDPInit: c.AllowIDP})
+	spkit.Noise(sp, c.Noise)
+	if c.Warm {
+		spkit.WarmUp(sp, fix.Epoch)
+	}
 	switch c.Validator {
 	case "accept":
 		sp.ValidateRequestID = func(saml.Response, []string) error { return nil }
@@ -220,6 +230,15 @@ func check(c Case) pbt.Result {
 	}
 
 	res := pbt.Result{Classes: []string{"entry:" + c.Entry, "resp:" + c.Resp.Class, fmt.Sprintf("outstanding:%d", len(c.Outstanding))}}
+	if c.Trust != "" {
+		res.Classes = append(res.Classes, "sp-trust:"+c.Trust)
+	}
+	if c.Noise != 0 {
+		res.Classes = append(res.Classes, "sp-unrelated-options-set")
+	}
+	if c.Warm {
+		res.Classes = append(res.Classes, "sp-served-a-login-before")
+	}
 	hasEmptyID, nearSet := false, false
 	for i, x := range c.Outstanding {
 		if x == "" {
@@ -326,6 +345,13 @@ func gen(t *rapid.T) Case {
 		RespSigned:  rapid.Bool().Draw(t, "respSigned"),
 		ArtSigned:   rapid.Bool().Draw(t, "artSigned"),
 		Encrypted:   rapid.IntRange(0, 4).Draw(t, "enc") == 0,
+	}
+	if rapid.IntRange(0, 2).Draw(t, "othertrust") == 0 {
+		c.Trust = rapid.SampledFrom(spkit.Trusts).Draw(t, "trust")
+	}
+	c.Warm = rapid.IntRange(0, 3).Draw(t, "warm") == 0
+	if rapid.IntRange(0, 2).Draw(t, "noise?") == 0 {
+		c.Noise = rapid.Uint64Range(1, 255).Draw(t, "noise")
 	}
 	if rapid.IntRange(0, 3).Draw(t, "randset") == 0 {
 		// random IDs, possibly sharing prefixes
